@@ -44,19 +44,22 @@ QUICK = [
     (scn("existing channel only, 2 messages of one thread, star subscriber", ["a"], P("a", "a"), P("a"), S("*")), 2, "shared", 50),
     (scn("two channels, exact + star subscriber", ["a"], P("a"), P("b"), S("a"), S("*")), 1, "shared", 50),
     (scn("2 first publishers, line granularity", [], P("c"), P("c")), 2, "lines", 40),
+    (scn("2 publishers, 2 competing subscribers on one existing channel", ["a"], P("a", "a"), P("a"), S("a"), S("a*")), 1, "shared", 60),
+    (scn("3 publishers, exact + star subscriber, existing and new", ["a"], P("a", "c"), P("c", "a"), P("c"), S("c"), S("*")), 1, "shared", 60),
+    (scn("new channels seen by a running star subscriber", [], P("x.1"), P("x.2"), S("x.*")), 2, "shared", 60),
 ]
 THOROUGH = [
     (scn("2 first publishers of one new channel", [], P("c"), P("c")), 3, "lines", 200),
-    (scn("2 first publishers + exact subscriber", [], P("c"), P("c"), S("c")), 3, "events", 600),
-    (scn("3 first publishers of one new channel", [], P("c"), P("c"), P("c")), 3, "events", 600),
-    (scn("3 publishers x 2 messages, new channel", [], P("c", "c"), P("c", "c"), P("c")), 2, "shared", 600),
-    (scn("existing + new channel, prefix-star subscriber", ["a"], P("a", "b.x"), P("b.x"), S("b.*")), 3, "shared", 700),
-    (scn("existing channel only, 2 messages of one thread, star subscriber", ["a"], P("a", "a"), P("a"), S("*")), 3, "shared", 700),
-    (scn("two channels, exact + star subscriber", ["a"], P("a"), P("b"), S("a"), S("*")), 2, "shared", 700),
-    (scn("2 publishers, 2 competing subscribers on one existing channel", ["a"], P("a", "a"), P("a"), S("a"), S("a*")), 2, "shared", 700),
-    (scn("3 publishers, exact + star subscriber, existing and new", ["a"], P("a", "c"), P("c", "a"), P("c"), S("c"), S("*")), 2, "shared", 700),
-    (scn("new channels seen by a running star subscriber", [], P("x.1"), P("x.2"), S("x.*")), 3, "events", 600),
-    (scn("existing + new channel, prefix-star subscriber, line granularity", ["a"], P("a", "b.x"), P("b.x"), S("b.*")), 2, "lines", 700),
+    (scn("2 first publishers + exact subscriber", [], P("c"), P("c"), S("c")), 3, "events", 420),
+    (scn("3 first publishers of one new channel", [], P("c"), P("c"), P("c")), 3, "events", 420),
+    (scn("3 publishers x 2 messages, new channel", [], P("c", "c"), P("c", "c"), P("c")), 2, "shared", 420),
+    (scn("existing + new channel, prefix-star subscriber", ["a"], P("a", "b.x"), P("b.x"), S("b.*")), 3, "shared", 420),
+    (scn("existing channel only, 2 messages of one thread, star subscriber", ["a"], P("a", "a"), P("a"), S("*")), 3, "shared", 420),
+    (scn("two channels, exact + star subscriber", ["a"], P("a"), P("b"), S("a"), S("*")), 2, "shared", 420),
+    (scn("2 publishers, 2 competing subscribers on one existing channel", ["a"], P("a", "a"), P("a"), S("a"), S("a*")), 2, "shared", 420),
+    (scn("3 publishers, exact + star subscriber, existing and new", ["a"], P("a", "c"), P("c", "a"), P("c"), S("c"), S("*")), 2, "shared", 420),
+    (scn("new channels seen by a running star subscriber", [], P("x.1"), P("x.2"), S("x.*")), 3, "events", 420),
+    (scn("existing + new channel, prefix-star subscriber, line granularity", ["a"], P("a", "b.x"), P("b.x"), S("b.*")), 2, "lines", 420),
 ]
 
 GLOB = set("*?[]")
@@ -210,7 +213,7 @@ def run(ck):
     ck.cov["evaluations"] = total
 
     # ---------- trace validation inside Coq
-    cap = 60000 if thorough else 6000
+    cap = 45000 if thorough else 9000
     if len(cases) > cap:
         idx = sorted(rng.sample(range(len(cases)), cap))
         ck.notes["trace_sample"] = "replayed %d of %d distinct traces (seeded sample)" % (cap, len(cases))
